@@ -43,14 +43,20 @@ package configf
 //@   let k6 = decStrK(src, q5, 5, false, d0)
 //@   let q6 = (k6 == 0 ? decStrP(src, q5, 5, d0) : seekP(src, q5, 5, d0))
 //@   let ok6 = ok5 && (k6 == 0 || (k6 == 1 && (seekK(src, q5, 5, d0) == 2 || (seekK(src, q5, 5, d0) == 1 && seekCanon(src, q5, 5, d0)))))
-//@   opaque [C04] *
+//@   opaque [C04,C06] *
 //@   perreturn
 //@   ensures [C04] (ok1 && err == nil) ==> st.Appname == (k1 == 0 ? decStrV(src, q0, 0, d0) : old(st.Appname))
+//@   ensures [C06] (k1 == 2) ==> err != nil
 //@   ensures [C04] (ok2 && err == nil) ==> st.Servername == (k2 == 0 ? decStrV(src, q1, 1, d0) : old(st.Servername))
+//@   ensures [C06] (ok1 && k2 == 2) ==> err != nil
 //@   ensures [C04] (ok3 && err == nil) ==> st.Filename == (k3 == 0 ? decStrV(src, q2, 2, d0) : old(st.Filename))
+//@   ensures [C06] (ok2 && k3 == 2) ==> err != nil
 //@   ensures [C04] (ok4 && err == nil) ==> st.BAppOnly == (k4 == 0 ? (decIntV(src, q3, 3, d0) != 0) : false)
+//@   ensures [C06] (ok3 && k4 == 2) ==> err != nil
 //@   ensures [C04] (ok5 && err == nil) ==> st.Host == (k5 == 0 ? decStrV(src, q4, 4, d0) : old(st.Host))
+//@   ensures [C06] (ok4 && k5 == 2) ==> err != nil
 //@   ensures [C04] (ok6 && err == nil) ==> st.Setdivision == (k6 == 0 ? decStrV(src, q5, 5, d0) : old(st.Setdivision))
+//@   ensures [C06] (ok5 && k6 == 2) ==> err != nil
 //@   ensures [C04] ok6 ==> (err == nil && readBuf.buf.i == q6)
 //@   safety [C05]
 //
@@ -78,6 +84,22 @@ package configf
 //@   perreturn
 //@   modifies buf.buf.bytes
 //@   ensures [C03] err == nil && buf.buf.bytes == pre
+//@   safety [C03]
+//
+//@ func (*ConfigInfo).WriteBlock
+//@   requires st != nil && validB(buf) && len(st.Appname) < 4294967296 && len(st.Servername) < 4294967296 && len(st.Filename) < 4294967296 && len(st.Host) < 4294967296 && len(st.Setdivision) < 4294967296
+//@   let e0 = buf.buf.bytes ++ head(StructBegin, tag)
+//@   let e1 = e0 ++ encString(0, st.Appname)
+//@   let e2 = e1 ++ encString(1, st.Servername)
+//@   let e3 = e2 ++ encString(2, st.Filename)
+//@   let e4 = e3 ++ encBool(3, st.BAppOnly)
+//@   let e5 = (st.Host != "" ? e4 ++ encString(4, st.Host) : e4)
+//@   let e6 = (st.Setdivision != "" ? e5 ++ encString(5, st.Setdivision) : e5)
+//@   let pre = e6 ++ head(StructEnd, 0)
+//@   opaque head encInt8 encInt16 encInt32 encInt64 encString encBool
+//@   perreturn
+//@   modifies buf.buf.bytes
+//@   ensures [C03] result == nil && buf.buf.bytes == pre
 //@   safety [C03]
 //
 //@ func (*GetConfigListInfo).ResetDefault
@@ -115,14 +137,20 @@ package configf
 //@   let k6 = decStrK(src, q5, 5, false, d0)
 //@   let q6 = (k6 == 0 ? decStrP(src, q5, 5, d0) : seekP(src, q5, 5, d0))
 //@   let ok6 = ok5 && (k6 == 0 || (k6 == 1 && (seekK(src, q5, 5, d0) == 2 || (seekK(src, q5, 5, d0) == 1 && seekCanon(src, q5, 5, d0)))))
-//@   opaque [C04] *
+//@   opaque [C04,C06] *
 //@   perreturn
 //@   ensures [C04] (ok1 && err == nil) ==> st.Appname == (k1 == 0 ? decStrV(src, q0, 0, d0) : old(st.Appname))
+//@   ensures [C06] (k1 == 2) ==> err != nil
 //@   ensures [C04] (ok2 && err == nil) ==> st.Servername == (k2 == 0 ? decStrV(src, q1, 1, d0) : old(st.Servername))
+//@   ensures [C06] (ok1 && k2 == 2) ==> err != nil
 //@   ensures [C04] (ok3 && err == nil) ==> st.BAppOnly == (k3 == 0 ? (decIntV(src, q2, 2, d0) != 0) : false)
+//@   ensures [C06] (ok2 && k3 == 2) ==> err != nil
 //@   ensures [C04] (ok4 && err == nil) ==> st.Host == (k4 == 0 ? decStrV(src, q3, 3, d0) : "")
+//@   ensures [C06] (ok3 && k4 == 2) ==> err != nil
 //@   ensures [C04] (ok5 && err == nil) ==> st.Setdivision == (k5 == 0 ? decStrV(src, q4, 4, d0) : "")
+//@   ensures [C06] (ok4 && k5 == 2) ==> err != nil
 //@   ensures [C04] (ok6 && err == nil) ==> st.Containername == (k6 == 0 ? decStrV(src, q5, 5, d0) : "")
+//@   ensures [C06] (ok5 && k6 == 2) ==> err != nil
 //@   ensures [C04] ok6 ==> (err == nil && readBuf.buf.i == q6)
 //@   safety [C05]
 //
@@ -150,4 +178,20 @@ package configf
 //@   perreturn
 //@   modifies buf.buf.bytes
 //@   ensures [C03] err == nil && buf.buf.bytes == pre
+//@   safety [C03]
+//
+//@ func (*GetConfigListInfo).WriteBlock
+//@   requires st != nil && validB(buf) && len(st.Appname) < 4294967296 && len(st.Servername) < 4294967296 && len(st.Host) < 4294967296 && len(st.Setdivision) < 4294967296 && len(st.Containername) < 4294967296
+//@   let e0 = buf.buf.bytes ++ head(StructBegin, tag)
+//@   let e1 = e0 ++ encString(0, st.Appname)
+//@   let e2 = (st.Servername != "" ? e1 ++ encString(1, st.Servername) : e1)
+//@   let e3 = (st.BAppOnly != false ? e2 ++ encBool(2, st.BAppOnly) : e2)
+//@   let e4 = (st.Host != "" ? e3 ++ encString(3, st.Host) : e3)
+//@   let e5 = (st.Setdivision != "" ? e4 ++ encString(4, st.Setdivision) : e4)
+//@   let e6 = (st.Containername != "" ? e5 ++ encString(5, st.Containername) : e5)
+//@   let pre = e6 ++ head(StructEnd, 0)
+//@   opaque head encInt8 encInt16 encInt32 encInt64 encString encBool
+//@   perreturn
+//@   modifies buf.buf.bytes
+//@   ensures [C03] result == nil && buf.buf.bytes == pre
 //@   safety [C03]
